@@ -31,9 +31,12 @@ def frame_base():
     pools = [dc.pool("fp")]
     nodes = [dc.node("n1", "fp", "medium", zone="zone-a"), dc.node("n2", "fp", "medium", zone="zone-a"),
              dc.node("n3", "fp", "medium", zone="zone-b")]
-    pods = [dc.pod("p1", "n1", cpu=1500, ext={"hostPort": "8080", "preferZone": "zone-c", "pvc": "vol-p1"}),
-            dc.pod("p2", "n2", cpu=1500, ext={"hostPort": "8080"}),
-            dc.pod("p3", "", cpu=1500, ext={"pvc": "vol-p3"})]
+    # every pod carries something the scheduler RELAXES when the pod does not fit at first: p1 several required OR-terms of which
+    # the first can never be met, and a preference for a zone that does not exist; p2 preferred pod anti-affinity and a spread with
+    # matchLabelKeys; p3 a ScheduleAnyway spread and preferred pod affinity
+    pods = [dc.pod("p1", "n1", cpu=1500, ext={"hostPort": "8080", "preferZone": "zone-c", "pvc": "vol-p1", "requireZones": "zone-x|zone-a|zone-b"}),
+            dc.pod("p2", "n2", cpu=1500, ext={"hostPort": "8080", "prefAntiAffinity": "p1", "spreadKeys": "p2"}),
+            dc.pod("p3", "", cpu=1500, ext={"pvc": "vol-p3", "spreadZone": "p3", "prefAffinity": "p1"})]
     return pools, nodes, pods
 
 
@@ -75,9 +78,18 @@ def beh_scenario(beh, idx):
             steps.append({"a": "Tick", "d": 1})     # (NodeClaim creation itself is outside both frames)
         else:
             raise ValueError("unknown Frame.tla step %r" % st)
-    sc = dc.scenario("beh:%d" % idx, pools, nodes, pods, [], steps, {"kind": "beh", "idx": idx})
+    opts = {}
+    if idx % 3 == 2:      # CapacityBuffer virtual pods: long-lived pod objects in a cache shared by every pass and simulation
+        steps.insert(0, buffer_step("buf", 2, {"requireZones": "zone-x|zone-b|zone-a", "preferZone": "zone-c", "spreadZone": "buf"}))
+        opts["capacityBuffer"] = True
+    sc = dc.scenario("beh:%d" % idx, pools, nodes, pods, [], steps, {"kind": "beh", "idx": idx}, options=opts)
     sc["catalog"] = catalog()
     return sc
+
+
+def buffer_step(name, n, ext, cpu=700):
+    """Step CapacityBuffer: a PodTemplate + a ready CapacityBuffer with n replicas whose virtual pods carry relaxable constraints."""
+    return {"a": "CapacityBuffer", "value": name, "n": n, "pod": dc.pod(name, "", cpu=cpu, labels={"app": name}, ext=ext)}
 
 
 # ------------------------------------------------------------------ decisions with many consecutive simulations
@@ -101,9 +113,28 @@ def decision_scenarios(rng):
     return out
 
 
-EXTS = [{}, {}, {"hostPort": "8080"}, {"hostPort": "9090"}, {"preferZone": "zone-b"}, {"preferZone": "zone-c"}, {"pvc": "v"},
+EXTS = [{}, {"hostPort": "8080"}, {"hostPort": "9090"}, {"preferZone": "zone-b"}, {"preferZone": "zone-c"}, {"pvc": "v"},
         {"hostPort": "8080", "pvc": "v"}, {"antiAffinity": "web"}, {"spreadZone": "web"}, {"requireZone": "zone-a"},
-        {"preferZone": "zone-c", "hostPort": "7070"}]
+        {"preferZone": "zone-c", "hostPort": "7070"},
+        # relaxable content: required OR-terms whose first term cannot be met (here or anywhere), preferred pod (anti-)affinity,
+        # ScheduleAnyway spreads, matchLabelKeys
+        {"requireZones": "zone-x|zone-a|zone-b"}, {"requireZones": "zone-x|zone-y|zone-b"}, {"requireZones": "zone-b|zone-a"},
+        {"requireZones": "zone-x|zone-a", "preferZone": "zone-c"}, {"prefAntiAffinity": "web"}, {"prefAffinity": "db"},
+        {"spreadKeys": "web"}, {"spreadZone": "web", "prefAntiAffinity": "web", "requireZones": "zone-x|zone-b|zone-a"},
+        {"requireZones": "zone-x|zone-a|zone-b", "hostPort": "8080", "spreadZone": "db"}]
+
+
+def option_grid(sc):
+    """The scenario under every option combination that selects different code paths of the scheduler: preference policy
+    {Respect, Ignore} x minValues policy {Strict, BestEffort}."""
+    out = []
+    for pi in (False, True):
+        for mv in ("Strict", "BestEffort"):
+            v = copy.deepcopy(sc)
+            v["options"] = dict(v.get("options") or {}, preferIgnore=pi, minValuesPolicy=mv)
+            v["name"] = "%s/%s-%s" % (sc["name"], "Ignore" if pi else "Respect", mv)
+            out.append(v)
+    return out
 
 
 def rich_scenario(rng, name):
@@ -112,6 +143,10 @@ def rich_scenario(rng, name):
     then a random sequence of simulations on random candidate sets (live, cancelled, timing out), all five methods,
     provisioning passes and real mutations in between."""
     pools = [dc.pool("pa", policy="WhenEmptyOrUnderutilized", ca=rng.choice([0, dc.CA])), dc.pool("pb", ca=rng.choice([0, dc.CA]))]
+    if rng.random() < 0.3:      # a PreferNoSchedule taint on a pool template: the last relaxation adds a blanket toleration
+        pools[rng.randrange(2)]["ext"] = {"preferNoSchedule": "x"}
+    if rng.random() < 0.25:     # minValues on a pool requirement (Strict vs BestEffort differ)
+        pools[rng.randrange(2)]["requirements"] = [{"key": "node.kubernetes.io/instance-type", "op": "Exists", "values": [], "minValues": rng.choice([2, 3])}]
     nodes, pods = [], []
     nn = rng.randint(3, 6)
     for j in range(nn):
@@ -165,7 +200,11 @@ def rich_scenario(rng, name):
                 p = copy.deepcopy(rng.choice(bound))
                 p["node"] = rng.choice(names)
                 steps.append({"a": "SetPod", "pod": p})
-    opts = {"preferIgnore": rng.random() < 0.2, "spotToSpot": rng.random() < 0.3}
+    opts = {"spotToSpot": rng.random() < 0.3}
+    if rng.random() < 0.3:
+        ext = dict(rng.choice([e for e in EXTS if e and "pvc" not in e and "hostPort" not in e]))
+        steps.insert(0, buffer_step("buf", rng.choice([1, 2, 3]), ext, cpu=rng.choice([300, 900, 2500])))
+        opts["capacityBuffer"] = True
     sc = dc.scenario(name, pools, nodes, pods, [], steps, {"kind": "rich"}, options=opts)
     sc["catalog"] = catalog(rng.choice([("large", "small", "medium"), ("medium", "large", "small"), ("large", "medium", "small")]))
     return sc
